@@ -63,7 +63,7 @@ def run(ctx, res):
                 else:
                     res.add(Finding("C18.R2", fshort(b), "int:%d" % n["v"][0], "integer literal %d in position arithmetic of the tokenizer / tag parser: a delimiter or keyword "
                                     "length is hard-coded" % n["v"][0], loc=T.loc(n)))
-    res.floor("C18.R2", "integer literals in tokenizer / tag parser", nint, 8)
+    res.floor("C18.R2", "integer literals in tokenizer / tag parser", nint, 4)
     # R3 delimiter parameters as opaque char sequences
     uses = 0
     for b in _fns_in(P, ("crate::tokenizer::",)):
